@@ -556,7 +556,7 @@ def fit_rscale(xy, uv, wxy=None, wuv=None, scale=None):
         rot_num = sxv - syu
         rot_denom = sxu + syv
 
-    if rot_num == rot_denom:
+    if rot_num == 0 and rot_denom == 0:
         theta = 0.0
     else:
         theta = np.rad2deg(np.arctan2(rot_num, rot_denom))
